@@ -217,9 +217,12 @@ def r08_4(ctx) -> None:
         if not isinstance(s.node, ast.Call):
             continue
         n += 1
-        a = [resolve_all(eng, s.fn, x) for x in s.node.args]
+        # (positional or by keyword; a tag-less entry point may spell the absent tag `None`)
+        given = [eng.cg.arg_for_param(s, dk, p_) for p_ in dk.pos_params[:5]]
+        a = [resolve_all(eng, s.fn, x) if x is not None else None for x in given]
         rp = next((p_ for p_ in s.fn.params if p_ == "recipient"), None)
-        ok = len(a) >= 4 and a[1] == [f"{rp}.headers()"] and a[2] == ["enc.cek_size"] and a[3] == [f"{s.fn.self_name}.key_size"] and (len(a) == 4 or a[4] == ["tag"])
+        ok = len(a) >= 4 and a[0] is not None and a[1] == [f"{rp}.headers()"] and a[2] == ["enc.cek_size"] and a[3] == [f"{s.fn.self_name}.key_size"] \
+            and (len(a) == 4 or a[4] is None or a[4] == ["tag"] or (a[4] == ["None"] and "tag" not in s.fn.params))
         ctx.check(ok, "R08.4", s.fn, s.node, f"{s.fn.short} :: {norm(s.node.func)}(...)", "Concat KDF is not called with (Z, the recipient's merged headers, enc.cek_size, self.key_size[, tag])", "argument order",
                   construct=f"Concat KDF call in {s.fn.short}")
     ctx.count("R08.4", n, 4, "Concat KDF call sites")
@@ -228,10 +231,11 @@ def r08_4(ctx) -> None:
     n1 = 0
     for s in eng.cg.callers.get(dk, []):
         m = s.fn
-        if m.cls is not pu or not isinstance(s.node, ast.Call) or not s.node.args:
+        z_arg = eng.cg.arg_for_param(s, dk, dk.pos_params[0]) if isinstance(s.node, ast.Call) else None
+        if m.cls is not pu or z_arg is None:
             continue
         n1 += 1
-        z = resolve_all(eng, m, s.node.args[0])
+        z = resolve_all(eng, m, z_arg)
         # which side: by the public entry point that reaches this method (the private helper may carry any name)
         names, todo, seen_ = {m.name}, [m], {m}
         while todo:
